@@ -197,6 +197,16 @@ def c04(r):
                 out.append(('stale-queue-entry', {'cause': cause},
                             'nothing pending or executing but que=%s view_todo=%s view_doing=%s busy=%s'
                             % (ob['que'], ob['view_todo'], ob['view_doing'], ob['busy']), c['i']))
+        # a released unit (in `doing`) is in flight, queued for a worker, or
+        # still held by the farm for the next dispatch -- never just gone
+        held = set(ob['jobs'])
+        exa = set(ex)
+        for x in range(W.n):
+            for t in ob['nodes'][x][1]:
+                if (x, t) not in exa and x not in held:
+                    out.append(('released-unit-lost', {},
+                                'unit (%s,%s) counts as executing but no worker has it, it is not queued '
+                                'and the farm does not hold its job' % (W.g['tags'][x], W.g['tnames'][t]), c['i']))
         if c['ev'][0] == 'tick' and c['before'] is not None:
             bf = c['before']
             if bf['flags'][1] and not bf['flags'][2]:   # active, not paused
